@@ -212,6 +212,7 @@ class Ctx:
             if rejects >= max_rejects or not lines:
                 break
         self.trace_events += total
+        self.nontrivial += len(set(lines))
         self.traces += 1
         self.evaluations += total
         if len(self.samples) < 10:
@@ -510,6 +511,45 @@ def check_C19(tier):
     return c.finish()
 
 
+def race_run(c, n):
+    """Run the concurrent driver under the Go race detector; a report whose stack is in go-ucan is a violation."""
+    exe = build_harness(race=True)
+    tpath = os.path.join(c.scratch, "race_trace.ndjson")
+    p = subprocess.run([exe, "drive", "race", str(c.seed), str(n), tpath], stdout=subprocess.PIPE, stderr=subprocess.PIPE, text=True,
+                       timeout=3000, env=dict(os.environ, GORACE="halt_on_error=0 exitcode=66", VERIF_SEED=str(c.seed)))
+    reports = p.stderr.split("WARNING: DATA RACE")[1:]
+    inrepo = [r for r in reports if "github.com/ucan-wg/go-ucan" in r or "/repo/" in r]
+    c.extra["race_detector"] = dict(reports=len(reports), in_go_ucan=len(inrepo), rounds=n, exit=p.returncode)
+    if p.returncode not in (0, 66):
+        raise Machinery("race build of the harness failed to run (rc=%s): %s" % (p.returncode, p.stderr[-1500:]))
+    for r in inrepo[:3]:
+        lines = [ln.strip() for ln in r.splitlines() if "github.com/ucan-wg/go-ucan" in ln or "/repo/" in ln][:6]
+        c.violations.append(dict(kind="race", family="race", case=dict(race_report=lines),
+                                 expect="no data race between read-only operations", actual="DATA RACE reported by the Go race detector",
+                                 note="go build -race: concurrent read-only operations on shared tokens race"))
+    return open(tpath).read() if os.path.exists(tpath) else ""
+
+
+def check_C20(tier):
+    c = Ctx("C20", tier)
+    q = tier == "quick"
+    for keys, ops in [("K_312", "Ops_it"), ("K_321", "Ops_iit")] + ([] if q else [("K_4", "Ops_itt"), ("K_231", "Ops_iit"), ("K_4", "Ops_iit")]):
+        c.mc("MC_Immutable", "MC_C20.cfg", dict(Keys=keys, Ops=ops, Deviations="{}"), timeout=900,
+             label="all interleavings of read-only processes: Frozen (action property), Repeatable, SortedOut")
+    c.mc("MC_Immutable", "MC_C20.cfg", dict(Keys="K_312", Ops="Ops_it", Deviations='{"SortInPlace"}'),
+         expect_violation=["Frozen", "Repeatable", "SortedOut"], label="sensitivity: SortInPlace")
+    tr = c.drive("immutable", 1 if q else 0)
+    c.validate("immutable", "TraceImmutable", "TraceImmutable.cfg", tr, timeout=3000,
+               rule="every insertion order of %d argument/metadata keys x constructed/decoded tokens x every sequence of <=2 of 15 read-only "
+                    "operations (Iter, ToIPLD, String, Equals, ExecutionAllowed[WithArgsHook], ToSealed, ToDagJson, Policy.Match, accessors); "
+                    "deep snapshot unchanged and results equal to the run-alone results" % (3 if q else 4))
+    tr = race_run(c, 30 if q else 400)
+    if tr.strip():
+        c.validate("race", "TraceImmutable", "TraceImmutable.cfg", tr,
+                   rule="8 goroutines x 6 random read-only operations on shared tokens under the Go race detector (%d rounds)" % (30 if q else 400))
+    return c.finish()
+
+
 CHAIN = {
     "C01": dict(q="MC_C01_q.cfg", t=["MC_C01_t.cfg", "MC_C01_t4.cfg"], dev='{"AudAsSubject"}',
                 rule="every invocation x proof list over principals {A,B,M}(+C), links over all principals, Undef subject and "
@@ -556,7 +596,7 @@ def check_chain(pid):
     return run
 
 
-CHECKS = {"C13": check_C13, "C15": check_C15, "C12": check_C12, "C14": check_C14, "C11": check_C11, "C16": check_C16, "C06": check_envelope("C06"), "C10": check_envelope("C10"), "C07": check_C07, "C17": check_C17, "C18": check_C18, "C19": check_C19}
+CHECKS = {"C13": check_C13, "C15": check_C15, "C12": check_C12, "C14": check_C14, "C11": check_C11, "C16": check_C16, "C06": check_envelope("C06"), "C10": check_envelope("C10"), "C07": check_C07, "C17": check_C17, "C18": check_C18, "C19": check_C19, "C20": check_C20}
 for _p in CHAIN:
     CHECKS[_p] = check_chain(_p)
 
